@@ -589,7 +589,9 @@ func (e *EdgeQuery) initQueue() {
 	if len(e.indexCovering) == 0 {
 		// We delay iterator initialization until now to make queries on very
 		// small indexes a bit faster (i.e., where brute force is used).
-		e.iter = NewShapeIndexIterator(e.index)
+		// Iterator() applies any pending index updates first, so the unlocked
+		// reads of the index below never overlap with a concurrent build.
+		e.iter = e.index.Iterator()
 	}
 
 	// Optimization: if the user is searching for just the closest edge, and the
